@@ -1,6 +1,7 @@
 // fbdrive: generator and driver of the correspondence checks.
-//   fbdrive <engine> gen -seed S -n N [-focus Cxx]     prints one case input per line
-//   fbdrive <engine> run                               reads inputs on stdin, prints "(input obs)" per line
+//
+//	fbdrive <engine> gen -seed S -n N [-focus Cxx]     prints one case input per line
+//	fbdrive <engine> run                               reads inputs on stdin, prints "(input obs)" per line
 package main
 
 import (
